@@ -16,6 +16,9 @@ def gen_case(rng, tier):
     c = SearchCase(dim, q, metric, rng.choice([0, 0, 7]))
     n = rng.choice([0, 1, 2, 3, 5, 8, 13, 30])
     ids = rng.sample(range(1, 200), n) if n else []
+    # ids are unsigned 64-bit: a share of them beyond the signed range
+    big = [2 ** 63, 2 ** 63 + 12345, 2 ** 64 - 1, 2 ** 63 - 1, 2 ** 32, 2 ** 64 - 2]
+    ids = list(dict.fromkeys((rng.choice(big) if rng.random() < 0.25 else i) for i in ids))
     vecs = []
     for id_ in ids:
         v = rng.choice(vecs) if vecs and rng.random() < 0.2 else rand_vec(rng, dim, q)      # duplicates among stored vectors
@@ -30,7 +33,7 @@ def gen_case(rng, tier):
         elif r < 0.8 and c.docs:
             c.upd(rng.choice(sorted(c.docs)), b'upd%d' % rng.randrange(100))
         else:
-            c.reopen()
+            c.reopen(None if rng.random() < 0.5 else (1 - metric, rng.choice([dim, dim + 1]), rng.choice([4, 8, 16, 32, 64])))
     c.cmds.append('docs')
     searches = []
     m = len(c.docs)
